@@ -36,7 +36,14 @@ func main() {
 			os.Exit(2)
 		}
 		r := core.NewRun(p.ID, tier, p.Level)
-		p.Run(r)
+		func() {
+			defer func() {
+				if x := recover(); x != nil {
+					core.NotePanic(x)
+				}
+			}()
+			p.Run(r)
+		}()
 		os.Exit(r.Finish())
 	case "replay":
 		b, err := os.ReadFile(os.Args[2])
